@@ -29,6 +29,7 @@ def value_for(k):
         "a": int(k % 1000003),
         "b": float(k) / 7.0,
         "c": "s%d" % k,
+        "place": "Troms\u00f8 \u00b5s %d" % (k % 7),  # text is not limited to ASCII
         "flag": bool(k % 2),
         "none": None,
         "vec5": np.arange(5, dtype=np.int32) + (k % 11),
@@ -76,6 +77,7 @@ def dict_form(ks):
         "a": np.array([v["a"] for v in vals]),
         "b": [v["b"] for v in vals],
         "c": [v["c"] for v in vals],
+        "place": [v["place"] for v in vals],
         "flag": np.array([v["flag"] for v in vals]),
         "vec5": np.stack([v["vec5"] for v in vals]),
         "mat": np.stack([v["mat"] for v in vals]),
